@@ -574,8 +574,8 @@ def gen_hp(rng, kind, name):
         if c < 0.4:
             lo, hi = rng.choice([(1e-5, 1e7), (1e-12, 1e-9), (1e-3, 0.1), (0.001, 1000.0), (1e-8, 1.0), (3e-4, 7e2), (1.0, 1e12)])
             return dict(kind="float", name=name, lo=lo, hi=hi, log=True)
-        if c < 0.55:  # (ConfigSpace rounds bounds to ~13 significant digits and refuses ranges that collapse)
-            lo = rng.choice([-1, 1]) * 10.0 ** rng.uniform(-12, 12)
+        if c < 0.55:  # (ConfigSpace rounds bounds to 13 decimal places and refuses ranges that collapse)
+            lo = rng.choice([-1, 1]) * 10.0 ** rng.uniform(-8, 12)
             return dict(kind="float", name=name, lo=lo, hi=lo + abs(lo) * 10.0 ** rng.uniform(-3, 2))
         if c < 0.7:
             lo = 10.0 ** rng.uniform(-9, 3)
@@ -1181,6 +1181,18 @@ def check_canon(case):
         sub = dict(deactivate_inactive_hyperparameters(dict(zip(names, impl_row)), cs_space))
         if set(sub) != set(act_d):
             return dict(res, ok=False, clause="activity_changed_by_canonicalisation", detail=dict(before=sorted(act_d), after=sorted(sub)))
+    # 4. Space.rvs (the candidates of every model-based step and the random initial points): members, inactive values canonical
+    sk.config_space.seed(case["seed"] + 1)
+    for row in sk.rvs(case["n"], random_state=case["seed"]):
+        cfg = dict(zip(names, [getattr(v, "tolist", lambda v=v: v)() for v in row]))
+        code, det = judge_config(cs_space, cfg)
+        if code != 0:
+            clause = "rvs:" + CLAUSES.get(code, str(code))
+            return dict(res, ok=False, kind="oracle", clause=clause, sig={"clause": clause}, detail=dict(row=repr(row), **det))
+        active = [n not in det["inactive"] for n in names]
+        rq = [q(c09.cell_to_model(d, t, v)) for d, t, v in zip(dims, toks, row)]
+        if [unq(a) for a in m.call(F_CANON_ROW, [msp, active, rq])] != [unq(a) for a in rq]:
+            return dict(res, ok=False, clause="rvs_not_canonical", detail=dict(row=repr(row), active=active))
     res["nontrivial"] = n_inactive > 0
     res["desc"].append("inactive=%s" % ("0" if n_inactive == 0 else "1+"))
     return res
